@@ -232,7 +232,7 @@ theorem c01_sharp_sanity :
 end Rtp.Props.C01
 
 namespace Rtp.Props.C01
-open Rtp Rtp.Model Rtp.Pred.C01
+open Rtp Rtp.Model Rtp.Pred.C01 Rtp.Proofs.PacketRt
 
 /-- kind `c01.reuse`: after decoding Marshal(p) into ANY receiver, the element list and the CSRC
     list are exactly p's — nothing of what the receiver decoded before survives, also while the X
@@ -259,5 +259,74 @@ theorem c01_reuse_lengths (p : Packet) (hwf : wfP p = true) (r : Packet) :
       exact hwf.1.1.2
     simp only [extsLegal, hX, Bool.not_false, if_true] at hw
     simp [hX, List.isEmpty_iff.mp hw]
+
+/-! ### nesting: unwrapping an encapsulated packet in place (kind `c01.inplace`) -/
+
+/-- well-formedness does not look at the payload -/
+theorem wfP_wrap (outer : Packet) (ib : Bytes) : wfP (wrap outer ib) = wfP outer := rfl
+
+/-- The nesting round trip: for all well-formed `inner` and `outer` and ANY receiver `r`, marshal
+    `inner`, carry the bytes as the payload of `outer`, marshal that, decode it into `r`, then
+    decode the receiver's own payload into the receiver (`recv.Unmarshal(recv.Payload)`): the
+    first decode shows the outer packet whose payload is exactly Marshal(inner), the second shows
+    `inner` (every header field, CSRCs, profile, element ids and values in order, payload,
+    padding size).  The round-trip theorem applied twice. -/
+theorem c01_nesting (inner outer : Packet) (hi : wfP inner = true) (ho : wfP outer = true) (r : Packet) :
+    ∃ ib ob q1 q2, pktMarshal inner = .ok ib ∧ pktMarshal (wrap outer ib) = .ok ob ∧
+      pktUnmarshal r ob = .ok q1 ∧ canonP q1 = canonP (wrap outer ib) ∧ q1.payload = ib ∧
+      pktUnmarshal q1 q1.payload = .ok q2 ∧ canonP q2 = canonP inner ∧
+      q2.payload = inner.payload ∧ q2.paddingSize = inner.paddingSize ∧
+      (inner.header.extension = true → q2 = inner) := by
+  obtain ⟨ib, hmi, _⟩ := c01_marshal_size inner hi
+  obtain ⟨ob, q1, hmo, _, hu1, hc1, hp1, _, _⟩ := c01_packet_roundtrip_spec (wrap outer ib) (by rw [wfP_wrap]; exact ho) r
+  obtain ⟨ib', q2, hmi', _, hu2, hc2, hp2, hs2, hx2⟩ := c01_packet_roundtrip_spec inner hi q1
+  have hib : ib' = ib := by rw [hmi] at hmi'; exact (Res.ok.inj hmi').symm
+  subst hib
+  have hq1 : q1.payload = ib' := hp1
+  exact ⟨ib', ob, q1, q2, hmi, hmo, hu1, hc1, hq1, by rw [hq1]; exact hu2, hc2, hp2, hs2, hx2⟩
+
+/-- … in the shape of the run-time check (`c01.inplace`, both modes: after the outer decode, and
+    with `recv.Payload` set by hand to the buffer), for whatever the receiver decoded before -/
+theorem c01_inplace (x : InplaceIn) (hwf : inplaceWf x = true) : inplaceHolds x (inplaceModel x) = true := by
+  simp only [inplaceWf, Bool.and_eq_true, Bool.or_eq_true] at hwf
+  obtain ⟨hi, hm⟩ := hwf
+  by_cases h1 : (x.mode == 1) = true
+  · simp only [inplaceHolds, inplaceModel, pktMarshal_wf x.inner hi, h1, if_true,
+      pktUnmarshal_wire x.inner hi, Res.map]
+    simp [canonP, canonH_decoded]
+  · have ho : wfP x.outer = true := by
+      rcases hm with hm | hm
+      · exact absurd hm h1
+      · exact hm
+    have ho' : wfP (wrap x.outer (pktWire x.inner)) = true := by rw [wfP_wrap]; exact ho
+    simp only [inplaceHolds, inplaceModel, pktMarshal_wf x.inner hi, h1, if_false,
+      pktMarshal_wf _ ho', pktUnmarshal_wire _ ho', Res.map]
+    simp only [wrap, pktUnmarshal_wire x.inner hi, Res.map]
+    simp [canonP, canonH_decoded]
+
+theorem c01_inplace_pred (x : InplaceIn) : inplacePred x (inplaceModel x) = true := by
+  unfold inplacePred
+  cases h : inplaceWf x
+  · rfl
+  · simpa using c01_inplace x h
+
+/-- non-vacuity: the inner packet of the seeded change's note (2 CSRCs, one-byte id 5 with 8 bytes,
+    40-byte payload) inside a padded outer packet with a two-byte extension; the in-place decode
+    returns it, and its wire image is long enough for a payload moved to the front of the buffer to
+    overwrite the extension value (offset 12+8+4 < 40) -/
+def exInner : Packet :=
+  { header := { version := 2, marker := true, payloadType := 96, seq := 7, ts := 1000, ssrc := 0xCAFE,
+                csrc := [1, 2], extension := true, extProfile := 0xBEDE,
+                exts := [{ id := 5, payload := [0xE1, 0xE2, 0xE3, 0xE4, 0xE5, 0xE6, 0xE7, 0xE8] }] },
+    payload := (List.range 40).map (fun i => (i + 0x41).toUInt8) }
+def exOuter : Packet :=
+  { header := { version := 2, padding := true, payloadType := 100, seq := 9, ssrc := 1, csrc := [3],
+                extension := true, extProfile := 0x1000, exts := [{ id := 200, payload := [1, 2, 3] }] },
+    paddingSize := 4 }
+example : inplaceWf { inner := exInner, outer := exOuter, prev := [], mode := 0 } = true := by decide +kernel
+example : (inplaceModel { inner := exInner, outer := exOuter, prev := [], mode := 0 }).2 = .ok exInner := by
+  decide +kernel
+example : (match (inplaceModel { inner := exInner, outer := exOuter, prev := [], mode := 0 }).1 with
+    | .ok q => q.payload.length == 76 && q.paddingSize == 4 | _ => false) = true := by decide +kernel
 
 end Rtp.Props.C01
